@@ -6,7 +6,7 @@ CONFIG = {
         "files": ["crypto/merklearray/zz_verif_c37_test.go"],
         "util": [("crypto/merklearray", "merklearray")],
         "env": {"quick": {"VERIF_C37_FULLN": 4, "VERIF_C37_EXHN": 8, "VERIF_C37_SAMPLED": 5, "VERIF_C37_RAND": 40, "VERIF_C37_MAXN": 70},
-                "thorough": {"VERIF_C37_FULLN": 6, "VERIF_C37_EXHN": 10, "VERIF_C37_SAMPLED": 12, "VERIF_C37_RAND": 300, "VERIF_C37_MAXN": 600}},
+                "thorough": {"VERIF_C37_FULLN": 6, "VERIF_C37_EXHN": 10, "VERIF_C37_SAMPLED": 12, "VERIF_C37_RAND": 100, "VERIF_C37_MAXN": 257}},
         "timeout": {"quick": 600, "thorough": 3000},
     }],
     "rule": "arrays of size 0..EXHN (8 quick / 10 thorough), plain trees and vector commitments: ALL position subsets, each with Prove, the honest "
